@@ -2,6 +2,7 @@ import Cfdp.Model.Segments
 import Cfdp.Model.Checksum
 import Cfdp.Model.Path
 import Cfdp.Model.Codec.Pdu
+import Cfdp.Model.Codec.UserOps
 import Cfdp.Model.Udp
 import Cfdp.Model.Recv
 import Cfdp.Model.Send
@@ -183,6 +184,22 @@ def codecStep (toks : List String) : String :=
   | ["pdu", h] =>
     match unhex h with
     | some bs => CodecFmt.pduAnswer bs
+    | none => "bad-op"
+  -- a reserved CFDP message (user operation): decode, re-encode, announced length
+  | ["userop", h] =>
+    match unhex h with
+    | some bs =>
+      match Cfdp.Codec.UserOp.decode bs with
+      | .ok (u, _) => s!"ok re={hex u.encode} elen={u.len}"
+      | .error e => "err:" ++ CodecFmt.errName e
+    | none => "bad-op"
+  -- a status report
+  | ["report", h] =>
+    match unhex h with
+    | some bs =>
+      match Cfdp.Codec.Report.decode bs with
+      | .ok (r, _) => s!"ok re={hex r.encode}"
+      | .error e => "err:" ++ CodecFmt.errName e
     | none => "bad-op"
   | _ => "bad-op"
 
